@@ -159,6 +159,23 @@ class Session:
             self.fault_fired_before = True
         return aborted, last
 
+    def scan_step(self, step: dict):
+        """The swept exhaustion fault for a generic operation step: the same operation, issued
+        from every stack depth at which it cannot complete, before the step itself runs."""
+        import typelib
+
+        op = step["op"]
+        try:
+            if op == "build":
+                return self.scan_exhaust(step, getattr(typelib, step["kind"]), self.T(step))
+            if op in ("marshal", "roundtrip") and step.get("t") is not None and not _one_shot(step["v"]):
+                return self.scan_exhaust(step, typelib.marshal, self.V(step["v"]), t=self.T(step))
+            if op == "unmarshal" and not _one_shot(step["x"]):
+                return self.scan_exhaust(step, typelib.unmarshal, self.T(step), self.V(step["x"]))
+        except (ValueError, StopIteration, RuntimeError):
+            return None  # the input itself cannot be built (a generated constructor refuses it)
+        return None
+
     def T(self, step_or_t, mod=None):
         if "k" in step_or_t:
             return self.world.realize(step_or_t, mod or self.default_mod)
@@ -561,6 +578,20 @@ class Session:
             "clock_seam": self.clock.available,
             "clock_reads": self.clock.reads(),
         }
+
+
+def _one_shot(v) -> bool:
+    """Does the value AST hold a one-shot iterator anywhere (a scan would consume it)?"""
+    stack = [v]
+    while stack:
+        x = stack.pop()
+        if isinstance(x, dict):
+            if "$gen" in x or "$iter" in x:
+                return True
+            stack.extend(x.values())
+        elif isinstance(x, list):
+            stack.extend(x)
+    return False
 
 
 def _cold_server(sess: Session, req_fd: int, res_fd: int):
